@@ -16,6 +16,7 @@ A unit file (verus/units/*.vunit) is a list of sections:
                              -- ghost text (assert .. by(..)) inserted before that line; text until next directive
   #subst-re <regex> => <repl>  -- same with a regular expression (used for `String::from_utf8_lossy(X).to_string()`
                              -- -> `lossy_string(X)`, a trusted wrapper whose body is that very expression)
+  #gsubst <old> => <new> / #gsubst-re <regex> => <repl>   -- the same, applied to every #fn and #item that follows
   #loop-invariant <stripped `while`/`for` line>   -- invariant/decreases clauses inserted between loop head and `{`
   #drop-macro <name> [<name>..]  -- statements `<name>!( .. );` (tracing macros) are removed from the body
   #subst <old> => <new>      -- every occurrence of the token sequence <old> in the body is redirected to <new>
@@ -128,6 +129,7 @@ def extract_item(src_text, anchor):
 
 def parse_unit(path):
     unit = {"name": None, "source": None, "items": []}
+    gsub, gsub_re = [], []
     cur_fn = None
     mode = None  # ('text', list) target to append lines
     buf = None
@@ -147,6 +149,9 @@ def parse_unit(path):
                 unit["name"] = arg
             elif d == "source":
                 unit["source"] = arg
+            elif d in ("gsubst", "gsubst-re"):
+                old, _, new = arg.partition(" => ")
+                (gsub if d == "gsubst" else gsub_re).append((old.strip(), new.strip()))
             elif d == "text":
                 buf = []
                 unit["items"].append(("text", buf))
@@ -155,13 +160,14 @@ def parse_unit(path):
                 m = re.match(r"(\S+\.rs)::(.*)$", arg)
                 if m:
                     src, anchor = m.group(1), m.group(2)
-                unit["items"].append(("item", {"anchor": anchor, "source": src}))
+                unit["items"].append(("item", {"anchor": anchor, "source": src, "subst": list(gsub), "subst_re": list(gsub_re)}))
             elif d == "impl":
                 unit["items"].append(("impl", arg))
             elif d == "endimpl":
                 unit["items"].append(("endimpl", None))
             elif d == "fn":
-                cur_fn = {"anchor": arg, "ret": None, "clauses": [], "hints": [], "loops": [], "source": unit["source"]}
+                cur_fn = {"anchor": arg, "ret": None, "clauses": [], "hints": [], "loops": [], "source": unit["source"],
+                          "subst": list(gsub), "subst_re": list(gsub_re)}
                 unit["items"].append(("fn", cur_fn))
             elif d == "scope":
                 cur_fn["scope"] = arg
@@ -210,10 +216,20 @@ def assemble(unit, repo):
                     raise LostAnchor("source %s is gone" % val["source"])
                 srcs[sp] = open(sp).read()
             txt, rng, nattr = extract_item(srcs[sp], val["anchor"])
+            isub = []
+            for old, new in val.get("subst", []):
+                n = txt.count(old)
+                if n:
+                    txt = txt.replace(old, new)
+                    isub.append({"from": old, "to": new, "occurrences": n})
+            for old, new in val.get("subst_re", []):
+                txt, n = re.subn(old, new, txt)
+                if n:
+                    isub.append({"from_regex": old, "to": new, "occurrences": n})
             out.append(txt)
             report.append({"item": val["anchor"], "source": val["source"], "byte_range": list(rng),
                            "sha256_real_text": hashlib.sha256(srcs[sp][rng[0]:rng[1]].encode()).hexdigest(),
-                           "dropped_attribute_lines": nattr, "lost_ghost_anchors": []})
+                           "dropped_attribute_lines": nattr, "substitutions": isub, "lost_ghost_anchors": []})
         elif kind == "impl":
             out.append("impl %s {" % val)
         elif kind == "endimpl":
